@@ -127,16 +127,18 @@ def oracle(s, impl, spec_line):
             return ("class-missing", f"no class for entity {e.name} (classes: {sorted(classes)})")
         bases, ctor = classes[by_ent[e.name][0]]
         want_b, want_c = sclasses[e.name]
-        if [un(x) for x in bases] != want_b:
-            return ("bases-order", f"class {e.name}: bases {bases}, supertypes in declaration order {want_b}",
-                    {"entity": e.name, "got": [un(x) for x in bases], "want": want_b})
         # the inherited parameters come first and carry the prefix `inherited<i>__`; an own attribute may itself be called so
+        # (judged BEFORE the base-class order: a kept finding about the base order of an entity must not hide a wrong
+        # parameter order of the same entity - seeded C18-f1)
         n_own = len([a for a in e.attrs if a.kind in "eo"])
         n_inh = max(len(ctor or []) - n_own, 0)
         got = [unescape(re.sub(r"^inherited\d+__", "", p) if i < n_inh else p) for i, p in enumerate(ctor or [])]
         if got != want_c:
             return ("ctor-order", f"class {e.name}: constructor takes {ctor}, Part 21 order of the explicit attributes is {want_c}",
                     {"entity": e.name, "got": got, "want": want_c})
+        if [un(x) for x in bases] != want_b:
+            return ("bases-order", f"class {e.name}: bases {bases}, supertypes in declaration order {want_b}",
+                    {"entity": e.name, "got": [un(x) for x in bases], "want": want_b})
     mo = re.search(r"\| order=(\S+)", line)
     emitted = [] if not mo or mo.group(1) == "-" else [un(x) for x in mo.group(1).split(",")]
     names = {e.name for e in s.entities}
